@@ -1,7 +1,7 @@
 (* Entry.v — single extracted entry point [run]: request = VList [VStr name; arg].
    All marshalling is done here in Gallina so that ocaml/driver.ml stays generic. *)
 From Coq Require Import ZArith List Bool String Ascii.
-From Verif Require Import PyStr Normalize NormalizeGen Util UtilGen Toc TocGen Footnote FootnoteGen Cli CliGen StoreGen Rx UnicodeGen RxGen Scanner RefLinks Tmpl HtmlRender TmplGen CodeSpan.
+From Verif Require Import PyStr Normalize NormalizeGen Util UtilGen Toc TocGen Footnote FootnoteGen Cli CliGen StoreGen Rx UnicodeGen RxGen Scanner RefLinks Tmpl HtmlRender TmplGen CodeSpan RxSub.
 Import ListNotations.
 Open Scope Z_scope.
 
@@ -166,6 +166,22 @@ Definition run_named (name : str) (arg : pval) : pval :=
     match arg with VStr u => VStr (safe_url harmful_protocols good_data_protocols escape_ops u) | _ => VErr "arg" end
   else if is_name name "codespan_text" then
     match arg with VStr s => VStr (codespan_text T s) | _ => VErr "arg" end
+  else if is_name name "sub" then
+    match arg with
+    | VList [pat; VList [VInt kind; VInt g; VStr lit; VInt width]; VStr s] =>
+      let r := match pat with
+               | VStr pname => assoc_rx pname rx_table
+               | VInt n => Some (indent_trim (Z.to_nat n))
+               | _ => None end in
+      let k := if (kind =? 0)%Z then RConst lit
+               else if (kind =? 1)%Z then RGroupThen (Z.to_nat g) lit
+               else RGroupPad (Z.to_nat g) (Z.to_nat width) in
+      match r with Some r => VStr (re_sub U r (rep_of k) s) | None => VErr "no such pattern" end
+    | _ => VErr "arg" end
+  else if is_name name "replace" then
+    match arg with
+    | VList [VStr old; VStr new; VBool once; VStr s] => VStr (if once then replace1 old new s else replace old new s)
+    | _ => VErr "arg" end
   else VErr "unknown function".
 
 Definition run (req : pval) : pval :=
